@@ -87,13 +87,91 @@ func main() {
 			fmt.Printf("NOTE property=C14 race sample: 420 sequences, %d race reports, exit %d\n", reports, raceCode)
 		}
 	}
+	progress := filepath.Join(ev.ScratchDir(), "c14-progress.log")
+	os.Setenv("C14_PROGRESS", progress)
 	code := emit.ExecHarness(bin, os.Args[1:]...)
 	if code != 0 && code != 1 && code != 3 {
-		fmt.Printf("INCONCLUSIVE property=C14 the monitor process ended abnormally (exit %d)\n", code)
+		code = crashed(bin, tier, progress, code)
 	}
 	if code == 0 && raceCode == 1 {
 		fmt.Println("VIOLATION property=C14 only the -race sample run showed a violation (see [race sample] lines)")
 		code = 1
 	}
 	os.Exit(code)
+}
+
+// crashed handles a monitor process that died (a panic in a server goroutine
+// of the runtime under test takes the whole process down): every sequence that
+// was running is re-run alone; one that kills the process again on its own is
+// reported as a violation with the stack as witness.
+func crashed(bin, tier, progress string, code int) int {
+	type cand struct{ id, leg, proto, mode string }
+	open := map[string]cand{}
+	var order []string
+	b, _ := os.ReadFile(progress)
+	for _, l := range strings.Split(string(b), "\n") {
+		f := strings.Fields(l)
+		if len(f) != 5 {
+			continue
+		}
+		if f[0] == "S" {
+			open[f[1]] = cand{f[1], f[2], f[3], f[4]}
+			order = append(order, f[1])
+		} else {
+			delete(open, f[1])
+		}
+	}
+	run := ev.New("C14", tier, "exploration")
+	run.Rule("fallback evidence written by the driver: the monitor process died; the sequences running at that moment were re-run one at a time")
+	found := false
+	for _, id := range order {
+		c, ok := open[id]
+		if !ok {
+			continue
+		}
+		delete(open, id)
+		cmd := exec.Command(bin, tier, "--seq", c.id)
+		cmd.Env = append(os.Environ(), "VERIF_OUT="+filepath.Join(ev.ScratchDir(), "crash-out"), "C14_PROGRESS=")
+		out, err := cmd.CombinedOutput()
+		run.Eval(1)
+		run.Distinct(c.leg + ":" + c.proto + ":" + c.mode + ":" + c.id)
+		ee, isExit := err.(*exec.ExitError)
+		if !isExit || ee.ExitCode() == 0 || ee.ExitCode() == 1 || ee.ExitCode() == 3 {
+			continue
+		}
+		text := string(out)
+		i := strings.Index(text, "panic:")
+		if j := strings.Index(text, "fatal error:"); i < 0 || (j >= 0 && j < i) {
+			i = j
+		}
+		if i < 0 {
+			continue
+		}
+		lines := strings.Split(text[i:], "\n")
+		if len(lines) > 40 {
+			lines = lines[:40]
+		}
+		head := strings.Join(lines, "\n")
+		inRuntime := false
+		for k, l := range lines {
+			if k >= 14 {
+				break
+			}
+			if strings.Contains(l, "github.com/Workiva/frugal/lib/go.") {
+				inRuntime = true
+			}
+		}
+		if !inRuntime {
+			run.Inconclusive("sequence " + c.id + " kills the monitor process, but the stack does not start in the runtime under test:\n" + head)
+			continue
+		}
+		found = true
+		run.Violation("C14:server-crashed:"+c.leg+":"+c.proto, "a request sequence with decodable headers crashes the server process: "+lines[0],
+			map[string]interface{}{"sequence": c.id, "leg": c.leg, "proto": c.proto, "mode": c.mode, "stack": head,
+				"regenerate": "VERIF_SEED=<seed> ./check C14 " + tier + " --seq " + c.id})
+	}
+	if !found {
+		run.Inconclusive(fmt.Sprintf("the monitor process ended abnormally (exit %d) and no single sequence reproduces it", code))
+	}
+	return run.Finish()
 }
